@@ -1,7 +1,7 @@
 """C13 -- variable resolution is plain substitution and keeps the rest of the preamble.
 
-Alphabet : 17 preamble lines (comment, abi, include, alias, definitions with =, appends with +=, nested and
-           repeated references, // in values, a self-reference, an undefined reference, a second definition, two different references in one value where the right one refers to the left one again, variable names that are prefixes of one another)
+Alphabet : 18 preamble lines (+2 once Resolve survives a two-variable cycle) (comment, abi, include, alias, definitions with =, appends with +=, nested and
+           repeated references (also the same multi-valued variable twice in one value), // in values, a self-reference, an undefined reference, a second definition, two different references in one value where the right one refers to the left one again, variable names that are prefixes of one another)
 Bound    : every sequence of distinct lines of length <= 6 (thorough) / <= 5 (quick), followed by
            `profile p @{exec_path} {`: 2.2 million / 267 thousand files
 Oracle   : a naive reference expander (fold += into the definition, substitute recursively, all
@@ -72,7 +72,7 @@ def run(tier):
         last = [l for l in pr.stderr.split('\n') if 'fatal error' in l or 'exceeds' in l or 'out of memory' in l][:2]
         fnd.report('crash class=self cause=indirect-cycle', 'Resolve does not return on a preamble whose variables refer to each other (@{p} = @{q}/1, @{q} = @{p}/2): the process dies (exit %d: %s)' % (pr.returncode, ' / '.join(last) or pr.stderr[-200:]),
                    {'preamble_lines': ['@{p} = @{q}/1', '@{q} = @{p}/2', '@{exec_path} = /bin/e']})
-    of = 17 + (2 if cyc else 0)
+    of = 18 + (2 if cyc else 0)
     pool = ThreadPoolExecutor(C.NPROC)
 
     def shard(i):
